@@ -685,8 +685,13 @@ func (s *Service) streamResponse(clientCtx, upstreamCtx context.Context, w http.
 			watchdog.Reset(readTimeout)
 		}
 
-		// Read and process data
-		if err := s.processStreamData(resp, buffer, state, w, isStreaming, rc, rlog); err != nil {
+		// Read and process data; both timers cover the read only, not the write to the client
+		if err := s.processStreamData(resp, buffer, state, w, isStreaming, rc, rlog, func() {
+			readDeadline.Stop()
+			if watchdog != nil {
+				watchdog.Stop()
+			}
+		}); err != nil {
 			if errors.Is(err, io.EOF) {
 				return state.totalBytes, state.lastChunk, nil
 			}
